@@ -3,6 +3,8 @@ package verifsim
 import (
 	"fmt"
 	"strings"
+
+	"google.golang.org/protobuf/reflect/protoreflect"
 )
 
 var c03Chain = []string{".select(id)", ".select(value)", ".select(extension)", ".select(family)", ".select(given)", ".select(url)", ".where(id.exists())", ".select(system)", ".select(coding)", ".select(text)",
@@ -60,6 +62,61 @@ func (g *genCtx) varProgram() (ProgSpec, []string) {
 	return ProgSpec{Src: src, Opts: opts}, u
 }
 
+// rareProgram applies one of the functions that ordinary programs seldom reach to elements of
+// the input selected by type - whatever the function makes of them (many of these calls are
+// errors in the unchanged library; what matters here is that the input is as it was).
+var c03RareGroups = []struct {
+	fns   []string
+	types []string
+}{
+	{[]string{"abs()", "ceiling()", "floor()", "round()", "round(1)", "truncate()", "sqrt()", "ln()", "exp()", "log(10)", "power(2)", "toInteger()", "toDecimal()", "toQuantity()", "toQuantity('mg')", "toString()", "convertsToInteger()", "convertsToQuantity()", "not()"},
+		[]string{"Quantity", "Quantity", "decimal", "integer", "positiveInt", "unsignedInt", "Age", "Money", "Duration"}},
+	{[]string{"toChars()", "upper()", "lower()", "length()", "indexOf('a')", "substring(1)", "startsWith('a')", "endsWith('a')", "contains('a')", "replace('a', 'b')", "matches('a')", "replaceMatches('a', 'b')", "toInteger()", "toDecimal()", "toBoolean()", "toDate()", "toDateTime()", "toTime()", "toQuantity()", "convertsToDecimal()", "convertsToBoolean()", "convertsToDate()", "convertsToTime()", "join(',')"},
+		[]string{"string", "string", "code", "uri", "id", "markdown", "canonical"}},
+	{[]string{"toString()", "toDate()", "toDateTime()", "toTime()", "convertsToDate()", "convertToDateTime()", "convertsToString()", "toChars()", "not()"},
+		[]string{"dateTime", "date", "instant", "time"}},
+	{[]string{"allTrue()", "anyTrue()", "allFalse()", "anyFalse()", "not()", "toInteger()", "toString()", "toDecimal()", "convertsToInteger()"},
+		[]string{"boolean"}},
+	{[]string{"isDistinct()", "distinct()", "single()", "trace('t')", "children()", "descendants()", "extension('http://example.org/ext/a')", "toString()", "children().children()", "abs()", "toChars()", "allTrue()"},
+		[]string{"Period", "HumanName", "Coding", "CodeableConcept", "Reference", "Identifier", "Extension", "Quantity", "string", "boolean", "dateTime", "decimal"}},
+}
+
+func (g *genCtx) rareProgram(ri int) ProgSpec {
+	root := string(g.res[ri].ProtoReflect().Descriptor().Name())
+	sel := pick(g.r, []string{"", "", ".first()", ".last()", ".take(1)", ".skip(1).take(1)", "[0]"})
+	grp := pick(g.r, c03RareGroups)
+	f, tn := pick(g.r, grp.fns), pick(g.r, grp.types)
+	// prefer a type the resource actually has elements of
+	present := map[string]bool{}
+	walkMessages(g.res[ri].ProtoReflect(), func(x protoreflect.Message) {
+		if n, ok := fhirTypeName(x.Descriptor()); ok {
+			present[n] = true
+		}
+	})
+	var have []string
+	for _, t := range grp.types {
+		if present[t] {
+			have = append(have, t)
+		}
+	}
+	if len(have) > 0 && g.r.p(0.85) {
+		tn = pick(g.r, have)
+	}
+	// (ofType(T) does not compile in this library - its table entry admits no argument - so the type
+	// filter is spelled with `is`)
+	src := fmt.Sprintf("%s.descendants().where($this is %s)%s", root, tn, sel)
+	if g.r.n(4) == 0 {
+		src += ".select(" + f + ")"
+	} else {
+		src += "." + f
+	}
+	var opts []COpt
+	if strings.Contains(f, "join(") {
+		opts = append(opts, COpt{Kind: "exp"})
+	}
+	return ProgSpec{Src: src, Opts: opts}
+}
+
 func genC03(seed uint64, run int, tier string) *Case {
 	g := &genCtx{r: newRng(seed, uint64(run)*64+streamC03), tier: tier, c: &Case{Mode: "C03", Tier: tier, Seed: seed, Run: run, Shape: "alias-abort"}, vkind: map[string]int{}}
 	c := g.c
@@ -85,6 +142,11 @@ func genC03(seed uint64, run int, tier string) *Case {
 			ps, used := g.varProgram()
 			c.Programs = append(c.Programs, ps)
 			infos = append(infos, pinfo{ri, used})
+			continue
+		}
+		if g.r.p(0.3) {
+			c.Programs = append(c.Programs, g.rareProgram(ri))
+			infos = append(infos, pinfo{ri, nil})
 			continue
 		}
 		ps, used := g.genProgram(ri, pick(g.r, []float64{0.05, 0.25}), depth)
